@@ -46,6 +46,10 @@ BlankLine(k) == IsBlank(Lines[k + 1])          \* k is 0-based
 (* characters the paragraph/heading trim removes (Unicode White_Space) *)
 WS == {9, 10, 11, 12, 13, 28, 29, 30, 31, 32, 133, 160, 5760, 8232, 8233, 8239, 8287, 12288} \cup (8192..8202)
 UniBlank(s) == \A k \in DOMAIN s : s[k] \in WS
+(* a source line whose content the trim removed entirely: white space, after the container prefix of the line
+   (block quote markers, a list marker) *)
+PrefixChars == {62, 45, 43, 42, 46, 41} \cup (48..57)
+TrimmedAway(s) == \A k \in DOMAIN s : s[k] \in WS \cup PrefixChars
 
 RECURSIVE StripLead(_)
 StripLead(s) == IF s # <<>> /\ s[1] \in {32, 9} THEN StripLead(Tail(s)) ELSE s
@@ -75,7 +79,7 @@ MapVerdict(e) ==
             ~\E off \in 0..(en - b - Len(e.cl)) :
                \* lines trimmed away before / after the content hold nothing but white space
                /\ \A k \in 0..(en - b - 1) :
-                     (k < off \/ k >= off + Len(e.cl)) => UniBlank(Lines[b + k + 1])
+                     (k < off \/ k >= off + Len(e.cl)) => TrimmedAway(Lines[b + k + 1])
                /\ \A i \in 1..Len(e.cl) :
                      LET c == StripLead(e.cl[i]) src == Lines[b + off + i] IN
                      Occurs(c, src) \/ (e.cell = 1 /\ Occurs(c, UnescPipes(src)))
